@@ -58,6 +58,18 @@ def traditional_clause(cl, rng, n, replay):
                 h = hvsrpy.HvsrTraditional(f, A)
             h.meta["processing_method"] = "traditional"
             hist = apply_history(rng, h, f)
+            if j % 4 == 1:
+                # a definite history (not left to chance): the library's own rejection with one search range, afterwards a peak search over another range - the file must
+                # carry the range the peaks of the written object were found with, not the one the rejection once used
+                r1 = (float(f.min() * 1.2), float(f.max() * 0.35)) if f[0] < f[-1] else (float(f.min() * 1.2), float(f.max() * 0.35))
+                r2 = (float(f.max() * 0.1), float(f.max() * 0.9))
+                try:
+                    hvsrpy.frequency_domain_window_rejection(h, n=2.0, max_iterations=5, search_range_in_hz=r1)
+                    hist.append(("fdwra-with-range", r1))
+                except ValueError:
+                    pass
+                h.update_peaks_bounded(search_range_in_hz=r2)
+                hist.append(("range", r2[0], r2[1]))
             if rng.random() < 0.35:
                 # peak-search filters handed over in a dictionary the caller keeps using (edits it, re-uses it for another object) afterwards:
                 # the object and its file must keep the filters the peaks were found with
